@@ -139,11 +139,16 @@ CLAIMS['C03'] = {
              'Inc failed, Failed undo search are unreachable; partial_put_huge, where K1 lives, is never entered) and every free of a held block returns Ok.'
              ' Theorem conc_successful_get_allowed: the last clause of the property for the public LLFree::get, every path, every interleaving: a '
              'successful allocation returns an aligned block none of whose frames was held.'
-             + PART + 'panic-freedom of the upper level (tree counters, reservations) and of partial frees of huge allocations under all interleavings '
-             'is explored (DFS/random schedules with panic capture and the held-free oracle, sequential histories), not proved; K1 shows that the '
-             'restriction to frees at allocation order is necessary.'),
+             ' Theorem conc_public_api_no_panic: for the WHOLE PUBLIC INTERFACE - any number of threads running any lists of valid public calls (LLFree::get '
+             'of any order/class/slot, targeted or not, on every path incl. sync, reserve-or-steal search, global steal, steal/demote of other slots; LLFree::put of held '
+             'blocks at their allocation order; drain) from any state satisfying the upper invariant - in EVERY state of EVERY schedule no thread has trapped: Unreserve '
+             'failed, unreserve invalid class, the counter assertions of Tree::put / LocalTree::put, bit-field setter bounds, No locals for class, Invalid class, the unwraps, '
+             'the subtraction in reserve_or_steal, the zero divisor of the tree search and all lower roll-back sites are unreachable; a thread of the model can only die by an '
+             'index outside the buffers (C18).'
+             + PART + 'partial frees of huge allocations under interleavings are REFUTED (K1), change_tree under interleavings is explored '
+             '(DFS/random schedules with panic capture and the held-free oracle), not proved; K1 shows that the restriction to frees at allocation order is necessary.'),
     'note': TB + ' Upper-level theorems hold for configurations satisfying CfgOk (class ids < 8, ordered policy, tree size < 2^19: every configuration of the repository; derived from elementary checks by CfgOk.of_checks); they depend on the C23 theorem (bv_decide axioms) through the lower search.',
-    'technique': 'Lean 4: refutation by a kernel-checked schedule (decide) + sequential panic-freedom theorems over all histories + rely/guarantee proof of panic-freedom of the lower allocator under all interleavings; trace co-simulation with known-finding matching',
+    'technique': 'Lean 4: refutation by a kernel-checked schedule (decide) + sequential panic-freedom theorems over all histories + rely/guarantee proofs of panic-freedom of the lower allocator and of the whole public interface under all interleavings (two ghost protocols, each strict about the other level); trace co-simulation with known-finding matching',
 }
 CLAIMS['C04'] = {
     'text': ('Theorems stats_exact / stats_at_tree_exact / stats_at_huge_exact / huge_free_exact / huge_entirely_free_iff / fast_counters_exact: under the '
